@@ -25,6 +25,13 @@ Correspondence stream `c17` (two request kinds, dispatched on "op"):
            (computed by the named-layers model), left-hand-side variables = `tokenRequired` of the CPython trees;
            compared: the structured Formula and `ModelSpec.required_variables` of every part.
 
+  history  2-4 formulas (two-sided and one-sided, with `.`) parsed and materialised one after the other with ONE context
+           object: a Pandas / Narwhals materializer's `layered_context`, a layered mapping of the caller's own making with
+           a layer called `data`, or a plain dict naming the available variables; parsers with and without a context of
+           their own. The model runs `Dot.parseHistory` (every parse reads the caller's context through a fresh layer);
+           compared per step: the structured Formula, the outcome and `required_variables` of every part; the keys of the
+           context before / after every step are recorded (compared when `C17_CONTEXT_UNCHANGED=1`).
+
 Oracle (implementation only, never looks at the model): sufficiency and necessity of both reported sets
 against real materialisations, the reported source of every variable against an independent scope-aware walk of the
 expression's free `Name` nodes (cross-checked with the compiler's symbol tables) through data > context >
@@ -32,13 +39,15 @@ transforms, the materialised single-factor columns against an independent `eval`
 materialisation that fails although every factor evaluates independently, the named layers against the case, the
 `_context` of stateful transforms against the three layers, and the `.` expansion against the formula obtained by
 writing EVERY `.` out as the data columns not read by the left-hand side (in data order) and parsing it without `.`;
-right-hand parts never report a response variable.
+right-hand parts never report a response variable; in a history every step is judged on its own formula (a one-sided
+formula expands `.` to ALL available columns whatever was parsed before on the same object).
 """
 from __future__ import annotations
 
 import ast
 import builtins as _builtins
 import collections
+import os
 import re
 import types
 
@@ -77,6 +86,7 @@ REQUIRED_THEOREMS = [
     "dot_operator_in_table",
     "dot_every_occurrence",
     "dot_context_of_formula",
+    "parse_history_independent",
 ]
 TRUSTED = [
     "parameters of the model, not verified: CPython's parser (`ast.parse`: the harness hands the tree of every Python "
@@ -124,7 +134,9 @@ RULE = (
     "data / context names, `Q(\"col\")`, optional left-hand side, optional further right-hand parts (`|`), occasional unbound "
     "name; dot: the fixed table of 12 multi-`.` formulas + `lhs ~ rhs` with 1-3 `.` in sums / interactions / parentheses / "
     "powers / several parts, left-hand side of 1-2 generated factors, context = layered (80%), explicit available list, "
-    "or none. non-trivial = a Python factor, a quoted name or a non-empty context; distinct by canonical JSON"
+    "or none; history: 2-4 steps from 7 two-sided and 6 one-sided templates over a shuffled 6-column data set (a one-sided "
+    "formula always follows a two-sided one somewhere), on a materializer (pandas / narwhals), a caller-built layered mapping "
+    "or a dict with an explicit available list, with or without a parser-owned context. non-trivial = a Python factor, a quoted name or a non-empty context; distinct by canonical JSON"
 )
 
 NROWS = 4
@@ -690,10 +702,80 @@ def gen_dot_rhs(rng, free):
             return rhs
 
 
+# A parse is only handed its context: the scratch entries it writes (`__formulaic_variables_used_lhs__`) belong in a fresh
+# layer of its own (the model states that the context is unchanged: theorem `parse_history_independent`), and the keys of
+# the materializer's `layered_context` / the caller's mapping / the parser's own context are recorded before and after every
+# step. A leftover scratch key alone does not contradict C17 (every `.` still expands correctly as long as each parse
+# rewrites the entry), so by default it is NOT reported on its own — only what it can cause is: a `.` that expands with the
+# left-hand side of an EARLIER formula, required variables that miss a column. `C17_CONTEXT_UNCHANGED=1` turns the stricter
+# comparison on (then a parse that writes into the object it was handed is reported even while all expansions are right).
+HISTORY_CONTEXT_MUST_BE_UNCHANGED = os.environ.get("C17_CONTEXT_UNCHANGED", "0") == "1"
+
+# histories: several formulas parsed (and materialised) with ONE context object
+HIST_TWO = ["y ~ §", "y ~ a", "np.log(y) + z ~ §", "{y + 1} ~ § - a", "y + `a b` ~ (§):b", "z ~ § | §", "a ~ b + §"]
+HIST_ONE = ["§", "§ - a", "(§):b", "§ + a:b", "0 + §", "(§)**2"]
+
+
+def _hist(steps, **kw):
+    c = dict(kind="history", steps=list(steps), formula=" ;; ".join(t.replace("§", ".") for t in steps), data=DOT_DATA, ctx={},
+             target="materializer", mat="pandas")
+    c.update(kw)
+    return c
+
+
+FIXED_HISTORIES = [
+    _hist(["y ~ §", "§"]),
+    _hist(["§", "y ~ §", "§"]),
+    _hist(["np.log(y) + z ~ §", "(§):b", "y ~ a", "§ - a"], mat="narwhals"),
+    _hist(["y ~ §", "z ~ §", "a ~ b + §", "§"], ctx=DOT_CTX, ctx_form="lm", ctx_split=1),
+    _hist(["y ~ a", "§ - a", "y + `a b` ~ (§):b", "§"], target="context"),
+    _hist(["y ~ §", "§", "z ~ §"], target="context", own=dict(keys=["k"], avail=None), ctx=DOT_CTX, ctx_form="named", ctx_split=1),
+    _hist(["y ~ §", "§ - a"], target="dict", explicit=["a", "y", "b", "q", "a"]),
+    _hist(["y ~ §", "(§):b", "z ~ §"], target="dict", own=dict(keys=[], avail=["y", "z", "b", "c"])),
+]
+
+
+def gen_history(rng):
+    k = rng.randint(2, 4)
+    steps = []
+    # a one-sided formula AFTER a two-sided one is the interesting order; everything else at random
+    first_two = rng.randrange(k - 1)
+    for i in range(k):
+        if i == first_two:
+            steps.append(rng.choice(HIST_TWO))
+        elif i == first_two + 1:
+            steps.append(rng.choice(HIST_ONE))
+        else:
+            steps.append(rng.choice(HIST_TWO + HIST_ONE))
+    cols = list(DOT_DATA)
+    rng.shuffle(cols)
+    data = {col: DOT_DATA[col] for col in cols}
+    kw = dict(data=data, mat=rng.choice(["pandas", "pandas", "narwhals"]))
+    if rng.random() < 0.4:
+        kw.update(ctx=DOT_CTX, ctx_form=rng.choice(["dict", "lm", "named", "nested"]), ctx_split=rng.randint(0, 2))
+    p = rng.random()
+    if p < 0.55:
+        kw.update(target="materializer")
+    elif p < 0.8:
+        kw.update(target="context")
+    else:
+        kw.update(target="dict", explicit=[rng.choice(cols + ["q"]) for _ in range(rng.randint(2, 6))])
+    q_ = rng.random()
+    if q_ < 0.2:
+        kw.update(own=dict(keys=["k", "m"], avail=None))       # a parser with a context of its own
+    elif q_ < 0.3 and kw["target"] == "dict":
+        kw.pop("explicit", None)
+        kw.update(own=dict(keys=[], avail=[rng.choice(cols) for _ in range(rng.randint(2, 5))]))
+    return _hist(steps, **kw)
+
+
 def cases(rng, tier):
     n = {"quick": 260, "thorough": 4000, "search": 150}[tier]
     # the known shapes first (cheap; makes the evidence independent of luck)
     yield from FIXED
+    yield from FIXED_HISTORIES
+    for _ in range(n // 8):
+        yield gen_history(rng)
     for _ in range(n):
         data, ctx = gen_env(rng)
         g = Gen(rng, data, ctx, wild=rng.random() < 0.3)
@@ -749,6 +831,8 @@ def describe(c):
         tags.append("ctx=" + c["ctx_form"])
     if "lambda" in f or " for " in f:
         tags.append("scoped")
+    if c["kind"] == "history":
+        tags += [f"steps={len(c['steps'])}", "target=" + c["target"], "mat=" + c.get("mat", "pandas")] + (["own-context"] if c.get("own") else [])
     if c["kind"] == "dot":
         tags.append(f"dots={_tpl(c).count('§')}")
         if c.get("avail_mode", "layers") != "layers":
@@ -908,6 +992,8 @@ def impl(c):
     ENV_KEYS[:] = env_keys(c, ctx)
     if c["kind"] == "dot":
         return impl_dot(c, df, ctx)
+    if c["kind"] == "history":
+        return impl_history(c, df, ctx)
     try:
         F = Formula(c["formula"])
     except Exception as e:
@@ -1066,9 +1152,89 @@ def impl_dot(c, df, ctx):
     return out
 
 
+def _history_objects(c, df, ctx):
+    """(the context object every parse of the history is handed, the materializer or None, the parser)"""
+    from formulaic.materializers import NarwhalsMaterializer, PandasMaterializer
+    from formulaic.parser import DefaultFormulaParser
+    from formulaic.utils.layered_mapping import LayeredMapping
+
+    own = c.get("own")
+    parser = None
+    if own:
+        pctx = {k: 1 for k in own["keys"]}
+        if own.get("avail") is not None:
+            pctx["__formulaic_variables_available__"] = list(own["avail"])
+        parser = DefaultFormulaParser(context=pctx)
+    if c.get("mat") == "narwhals":
+        import pyarrow
+
+        mat = NarwhalsMaterializer(pyarrow.Table.from_pandas(df, preserve_index=False), context=ctx)
+    else:
+        mat = PandasMaterializer(df, context=ctx)
+    if c["target"] == "materializer":
+        return mat.layered_context, mat, parser
+    if c["target"] == "context":
+        # a layered context of the caller's own making, with a layer called `data`
+        return LayeredMapping(LayeredMapping({k: df[k] for k in df.columns}, name="data"), ctx), None, parser
+    obj = dict(ctx) if isinstance(ctx, dict) else {k: ctx[k] for k in ctx}
+    if c.get("explicit") is not None:
+        obj["__formulaic_variables_available__"] = list(c["explicit"])
+    return obj, None, parser
+
+
+def _keys(obj):
+    return [str(k) for k in obj]
+
+
+def impl_history(c, df, ctx):
+    from formulaic import Formula
+
+    obj, mat, parser = _history_objects(c, df, ctx)
+    out = dict(ctx_desc=describe_context(ctx), caller_desc=describe_context(obj), keys_before=_keys(obj),
+               own_before=_keys(parser.context) if parser is not None else None, steps=[], codes=[])
+    seen = set()
+    for tpl in c["steps"]:
+        f = tpl.replace("§", ".")
+        for code in _token_codes(f):
+            if code["k"] not in seen:
+                seen.add(code["k"])
+                out["codes"].append(code)
+        st = dict(tpl=tpl)
+        try:
+            F = Formula(f, _context=obj) if parser is None else Formula(f, _parser=parser, _nested_parser=parser, _context=obj)
+        except Exception as e:
+            st["parse_error"] = pc.exc_class(e)
+        else:
+            st["formula"] = pc.canon_val(F)
+            lhs = getattr(F, "lhs", None)
+            st["lhs_factors"] = [dict(x=x.expr, m=x.eval_method.value) for t in (lhs if lhs is not None else []) for x in t.factors]
+            if mat is not None:
+                err, mm = _outcome(lambda: mat.get_model_matrix(F, na_action="ignore"))
+                st["full"] = err or dict(ok=True)
+                if mm is not None:
+                    st["parts"] = canon_specs(mm.model_spec)
+        st["keys_after"] = _keys(obj)
+        st["own_after"] = _keys(parser.context) if parser is not None else None
+        out["steps"].append(st)
+    return out
+
+
 def request(c, o):
     if "ctx_desc" not in o:
         return dict(op="none")
+    if c["kind"] == "history":
+        steps = []
+        norm = []
+        for tpl in c["steps"]:
+            r = pc.request_for(tpl.replace("§", "."), "history")
+            steps.append(dict(s=r["s"], w=r["w"], sp=r["sp"]))
+            norm += [n for n in r["norm"] if n not in norm]
+        own = c.get("own") or {}
+        explicit = c.get("explicit") if c.get("explicit") is not None else own.get("avail")
+        return dict(op="history", steps=steps, norm=norm, pyvars=[], codes=o["codes"], data=list(c["data"]), context=o["ctx_desc"],
+                    caller=o["caller_desc"], target=c["target"], explicit=explicit,
+                    own=list(own.get("keys", [])) + (["__formulaic_variables_available__"] if own.get("avail") is not None else []),
+                    builtins=sorted(_LAST_RESORT), probe=PROBE, cfg=pc.CFG_DEFAULT)
     if c["kind"] == "dot":
         r = pc.request_for(c["formula"], "dot")
         r.update(pyvars=[], codes=o["codes"], data=list(c["data"]), context=o["ctx_desc"], builtins=sorted(_LAST_RESORT), probe=PROBE,
@@ -1170,12 +1336,40 @@ def _cmp_named(o, m):
     return None
 
 
+def _agree_history(c, o, m):
+    if "error" in m and "steps" not in m:
+        return f"model: {m['error']}"
+    if len(m["steps"]) != len(o["steps"]):
+        return "model and implementation ran a different number of steps"
+    for i, (so, sm) in enumerate(zip(o["steps"], m["steps"])):
+        tag = f"step {i + 1} `{so['tpl'].replace('§', '.')}`"
+        if "parse_error" in so:
+            if sm.get("error") != so["parse_error"]:
+                return f"{tag}: impl {so['parse_error']} vs model {sm.get('error', 'a formula')}"
+            continue
+        if "error" in sm:
+            return f"{tag}: model {sm['error']} vs impl formula"
+        if so["formula"] != sm["formula"]:
+            return f"{tag}: impl {so['formula']} vs model {sm['formula']}"
+        if "full" in so:
+            w = _cmp_run(tag, so["full"], sm["full"], compare_vars=False)
+            if w:
+                return w
+            if "parts" in so and "error" not in sm["full"] and _sorted_parts(so["parts"]) != _sorted_parts(sm["parts"]):
+                return f"{tag}: required_variables per part: impl {_sorted_parts(so['parts'])} vs model {_sorted_parts(sm['parts'])}"
+    if HISTORY_CONTEXT_MUST_BE_UNCHANGED and c["target"] != "dict" and o["steps"] and o["steps"][-1]["keys_after"] != m["keys"]:
+        return f"the context after the history holds {o['steps'][-1]['keys_after']}, the model's {m['keys']}"
+    return None
+
+
 def agree(c, o, m):
     ENV_KEYS[:] = env_keys(c)
     if "driver_error" in m:
         return "driver: " + m["driver_error"][:300]
     if "parse_error" in o and "ctx_desc" not in o:
         return None
+    if c["kind"] == "history":
+        return _agree_history(c, o, m)
     if c["kind"] != "dot" and "parse_error" in o:
         return None if m.get("error") == o["parse_error"] else f"Formula(...) raises {o['parse_error']}, the parser model gives {m.get('error', 'a formula')}"
     if c["kind"] != "dot":
@@ -1511,6 +1705,55 @@ def _diagnose_dot(c, o):
     return None
 
 
+def _diagnose_history(c, o):
+    """every step of a history on one context object stands on its own: each `.` expands to the columns not used on the
+    left-hand side OF ITS OWN formula (all of them for a one-sided formula), the required variables of right-hand parts
+    never contain that formula's response, and a parse leaves the object it was handed (and the parser's own context)
+    as it found them"""
+    own = c.get("own") or {}
+    if c["target"] == "dict":
+        available = c.get("explicit") if c.get("explicit") is not None else own.get("avail")
+    else:
+        available = own.get("avail") if own.get("avail") is not None else list(c["data"])
+    before, own_before = o["keys_before"], o["own_before"]
+    for i, st in enumerate(o["steps"]):
+        cc = dict(c, tpl=st["tpl"], formula=st["tpl"].replace("§", "."))
+        where = dict(step=i + 1, formula=cc["formula"], history=[t.replace("§", ".") for t in c["steps"][:i]])
+        if available is None:
+            if "§" in st["tpl"] and st.get("parse_error") != "FormulaParsingError":
+                return ("history-dot", dict(where, got=st.get("parse_error", st.get("formula")), want="FormulaParsingError", unused=None))
+            continue
+        if "parse_error" in st:
+            want = _dot_expected(cc, list(available))
+            if "error" not in want:
+                return ("history-dot", dict(where, got=st["parse_error"], want=want, unused=None))
+            continue
+        reads = _reads(st["lhs_factors"])
+        unused = [col for col in dict.fromkeys(available) if col not in reads]
+        want = _dot_expected(cc, unused)
+        if st["formula"] != want:
+            return ("history-dot", dict(where, got=st["formula"], want=want, unused=unused))
+        if "parts" in st and isinstance(st["parts"], dict) and "s" in st["parts"] and "rhs" in st["parts"]["s"]:
+            used = [k for k in reads if k in c["data"]]
+            for leaf in _leaves(st["parts"]["s"]["rhs"]):
+                if set(leaf) & set(used):
+                    return ("history-response", dict(where, bad=sorted(set(leaf) & set(used)), leaf=leaf))
+        if "parts" in st and not isinstance(st["parts"], dict) and "§" in st["tpl"] and st["tpl"] in ("§", "0 + §"):
+            if sorted(st["parts"]) != sorted(dict.fromkeys(c["data"])):
+                return ("history-required", dict(where, got=st["parts"], want=sorted(dict.fromkeys(c["data"]))))
+    if HISTORY_CONTEXT_MUST_BE_UNCHANGED:
+        # the state leak that makes the above possible, reported on its own: scratch keys left in an object the parse
+        # was only handed (the materializer's `layered_context`, the caller's mapping, the parser's own context)
+        for i, st in enumerate(o["steps"]):
+            if st["keys_after"] != before or st["own_after"] != own_before:
+                changed = st["keys_after"] != before
+                return ("history-context", dict(step=i + 1, formula=st["tpl"].replace("§", "."),
+                                                history=[t.replace("§", ".") for t in c["steps"][:i]],
+                                                before=before if changed else own_before,
+                                                after=st["keys_after"] if changed else st["own_after"]))
+    return None
+
+
 def diagnose(c, o):
     """first way in which the implementation's observables contradict the property: (kind, details) or None"""
     ENV_KEYS[:] = env_keys(c)
@@ -1518,6 +1761,8 @@ def diagnose(c, o):
         return ("harness", dict(msg=o["harness_exception"]))
     if "parse_error" in o and ("ctx_desc" not in o or c["kind"] != "dot"):
         return None  # the formula string itself is rejected: outside C17
+    if c["kind"] == "history":
+        return _diagnose_history(c, o)
     d = _diagnose_named(c, o)
     if d is not None:
         return d
@@ -1604,6 +1849,16 @@ def oracle(c, o):
     if k == "spurious-failure":
         return (f"the materialisation fails with a factor-evaluation error ({x['cause']}) although every factor evaluates to a numeric "
                 "column when its names are resolved data > context > transforms")
+    if k in ("history-dot", "history-context", "history-response", "history-required"):
+        pre = f"step {x['step']} `{x['formula']}` on a context object that already served {x['history']}: "
+        if k == "history-dot":
+            return pre + (f"gives {x['got']}; with EVERY `.` = the available columns not used on the left-hand side of THIS formula "
+                          f"{x['unused']} it is {x['want']}")
+        if k == "history-context":
+            return pre + f"the parse changed a context it was only handed: keys before {x['before']}, after {x['after']}"
+        if k == "history-response":
+            return pre + f"a right-hand part reports the response variable(s) {x['bad']} as required: {x['leaf']}"
+        return pre + f"required_variables {x['got']}, all data columns are {x['want']}"
     if k == "named-layer":
         return f"layered_context.{x['name']} gives {x['got']}; the layer of that name holds {x['want']}"
     if k == "transform-context":
@@ -1680,6 +1935,8 @@ def classify(c, o, why):
     if d is None:
         return None  # a model/implementation disagreement without a property failure is never a known finding
     k, x = d
+    if c["kind"] == "history":
+        return None
     factors = o.get("lhs_factors", []) if c["kind"] == "dot" else o["factors"]
     f1, f2, f3, f4 = _signatures(c, factors)
     if k == "dot":
@@ -1741,7 +1998,9 @@ LEVEL_TEXT = (
     "Python factor; hence the reported sets — of one spec and of the union over several parts — are sufficient and necessary "
     "under explicitly stated side conditions (each side condition is a reported finding or assumption); `.` is the "
     "duplicate-free list of the keys of the data layer not among the left-hand-side variables, in data order, and EVERY "
-    "occurrence of `.` in a formula tree evaluates to that one list. The model is tied to the code by a differential "
+    "occurrence of `.` in a formula tree evaluates to that one list; a parse reads the context it is handed through a fresh "
+    "layer, so any history of parses on one materializer / context gives, step by step, what each formula gives alone and "
+    "leaves the context unchanged. The model is tied to the code by a differential "
     "correspondence on every run and the property is checked on the real objects by the oracle."
 )
 LEVEL_NOTE = (
